@@ -677,3 +677,35 @@ impl num::Float for Q {
         self.to_f64_lossy().integer_decode()
     }
 }
+
+/// Sanity of the exact scalar itself, run before every check (a wrong `Q` would silently
+/// turn exact comparisons into false alarms or false passes). Returns the first failure.
+pub fn self_test() -> Result<(), String> {
+    use num::Float;
+    Q::reset();
+    let q = Q::from_ratio;
+    let ck = |name: &str, ok: bool| if ok { Ok(()) } else { Err(format!("Q self-test failed: {}", name)) };
+    ck("1/3 + 1/6 == 1/2", q(1, 3) + q(1, 6) == q(1, 2))?;
+    ck("2/3 * 3/4 == 1/2", q(2, 3) * q(3, 4) == q(1, 2))?;
+    ck("(1/3) / (2/9) == 3/2", q(1, 3) / q(2, 9) == q(3, 2))?;
+    ck("1/3 - 1/2 == -1/6", q(1, 3) - q(1, 2) == q(-1, 6))?;
+    ck("ordering", q(1, 3) < q(1, 2) && q(-1, 2) < q(-1, 3) && !(q(1, 2) < q(1, 2)))?;
+    ck("0.1 is the exact value of the f64 literal", Q::from_f64_exact(0.1).key() == "3602879701896397/36028797018963968")?;
+    ck("0.5 + 0.25 exact", Q::from_f64_exact(0.5) + Q::from_f64_exact(0.25) == q(3, 4))?;
+    let before = Q::inexact_ops();
+    ck("sqrt(9/4) == 3/2 exactly", q(9, 4).sqrt() == q(3, 2) && Q::inexact_ops() == before)?;
+    ck("sqrt(2) is flagged inexact", { let _ = q(2, 1).sqrt(); Q::inexact_ops() == before + 1 })?;
+    ck("powi", q(2, 3).powi(3) == q(8, 27) && q(2, 1).powi(-2) == q(1, 4))?;
+    ck("abs / neg / signum", q(-2, 3).abs() == q(2, 3) && -q(2, 3) == q(-2, 3) && q(-5, 1).signum() == q(-1, 1) && q(0, 1).signum() == q(1, 1))?;
+    ck("x/0 is infinite, 0/0 is NaN", (q(1, 1) / q(0, 1)).is_infinite() && (q(0, 1) / q(0, 1)).is_nan() && !(q(1, 1) / q(0, 1)).is_finite())?;
+    ck("NaN compares false", { let n = q(0, 1) / q(0, 1); !(n == n) && !(n < q(1, 1)) && !(n > q(1, 1)) })?;
+    ck("min/max/clamp", q(1, 2).max(q(1, 3)) == q(1, 2) && q(1, 2).min(q(1, 3)) == q(1, 3) && q(5, 1).clamp(q(-1, 1), q(1, 1)) == q(1, 1))?;
+    ck("log2 of powers of two is exact", q(1, 4).log2() == q(-2, 1) && q(8, 1).log2() == q(3, 1))?;
+    ck("to_f64 of 1/3", (q(1, 3).to_f64_lossy() - 1.0 / 3.0).abs() < 1e-16)?;
+    let m = Q::mark();
+    let _ = q(7, 9) + q(1, 9);
+    Q::rollback(m);
+    ck("arena rollback", Q::mark() == m)?;
+    Q::reset();
+    Ok(())
+}
